@@ -265,6 +265,17 @@ def shapes(tier):
     add(["u8", "u8"], [["0", "_"], ["_", "1"], ["3", "3"]], must_accept=True)
     add(["u8"], [["0"], ["1"], ["2"]], must_accept=True)
     add(["u8", "u8"], [["0", "0"], ["1", "1"], ["2", "2"], ["3", "eq!(&3)"]], must_accept=True)
+    # disjunctive form over one structured argument: alternatives that differ only inside a struct /
+    # enum / tuple pattern, or only in their path
+    for t in ("S", "E", "tup", "color", "opt"):
+        plain = [a for a in ATOMS[t] if "{b}" not in a and not a.startswith(("eq!", "ne!"))]
+        pairs = list(itertools.permutations(plain, 2))
+        if quick:
+            pairs = [(plain[i], plain[(i + 1) % len(plain)]) for i in range(len(plain))] + [(plain[(i + 1) % len(plain)], plain[i]) for i in range(len(plain))]
+        for a1, a2 in pairs:
+            add([t], [[a1], [a2]])
+    add(["S"], [["S { a: 0, .. }"], ["S { b: true, .. }"]])
+    add(["S"], [["S { b: true, .. }"], ["S { a: 0, .. }"], ["S { a: 2, b: _ }"]])
     # three arguments
     for a in itertools.product(["1", "_", "eq!(&2)", "0 | 3"], repeat=3):
         if quick and a.count("_") < 1:
